@@ -6,7 +6,7 @@
    it returns on m.  loaded510_scans composes this with conv510_built and the theorems of
    ScanMsgMainProofs.v. *)
 From Coq Require Import List Arith Bool NArith ZArith Lia Sorted.
-From Slim Require Import Base Keys Model BitmapRank BitmapRank2 Bits Msg MsgProofs Scan ScanProofs ScanMsg
+From Slim Require Import Base Keys Model BitmapRank BitmapRank2 Bits Msg MsgProofs Scan ScanBasicProofs ScanProofs ScanMsg
      ScanMsgIterProofs ScanMsgMainProofs Legacy510 Legacy510Proofs Legacy510QueryProofs.
 Import ListNotations.
 Local Open Scope N_scope.
